@@ -256,7 +256,7 @@ pub fn check(s: &'static dyn Proto, c: &Case, st: &mut Stats, _k: &KnownFindings
 
 pub const BUDGET: Budget = Budget {
     quick: (8, 5, 3),
-    thorough: (40, 15, 5),
+    thorough: (60, 24, 10),
     shrink: 8,
 };
 
